@@ -37,6 +37,23 @@ def hexVal (c : Char) : Nat :=
 
 def digitsToNat (ds : List Char) : Nat := ds.foldl (fun n c => n * 10 + (c.toNat - '0'.toNat)) 0
 
+def isHexDigit (c : Char) : Bool :=
+  c.isDigit || ('a'.toNat ≤ c.toNat && c.toNat ≤ 'f'.toNat) || ('A'.toNat ≤ c.toNat && c.toNat ≤ 'F'.toNat)
+
+/-- the digits of a radix-prefixed integer literal (underscores dropped) and what follows them (the suffix) -/
+def takeRadixDigits (hex : Bool) : List Char → List Char × List Char
+  | [] => ([], [])
+  | c :: cs =>
+    if (if hex then isHexDigit c else c.isDigit) then let (d, r) := takeRadixDigits hex cs; (c :: d, r)
+    else if c == '_' then takeRadixDigits hex cs
+    else ([], c :: cs)
+
+/-- `0x…`, `0o…`, `0b…`: an integer literal; `syn::LitInt` keeps its value in base 10, so `base10_parse` sees the value -/
+def radix (base : Nat) (rest : List Char) : NumLit :=
+  let (ds, suf) := takeRadixDigits (base == 16) rest
+  if ds.isEmpty then ⟨false, .other, 0, 0, ""⟩ else
+  ⟨false, .int, ds.foldl (fun n c => n * base + hexVal c) 0, 0, String.ofList suf⟩
+
 /-- lex the text of one literal token (as rustc / proc_macro2 would have produced it) -/
 def lex (s : String) : NumLit :=
   let cs := s.toList
@@ -44,6 +61,9 @@ def lex (s : String) : NumLit :=
   | 'b' :: '\'' :: '\\' :: 'x' :: h1 :: h2 :: '\'' :: rest => ⟨false, .byte, hexVal h1 * 16 + hexVal h2, 0, String.ofList rest⟩
   | 'b' :: '\'' :: c :: '\'' :: rest => ⟨false, .byte, c.toNat, 0, String.ofList rest⟩
   | '"' :: _ => ⟨false, .other, 0, 0, ""⟩
+  | '0' :: 'x' :: rest => radix 16 rest
+  | '0' :: 'o' :: rest => radix 8 rest
+  | '0' :: 'b' :: rest => radix 2 rest
   | _ =>
     let (ip, r1) := takeDigits cs
     if ip.isEmpty then ⟨false, .other, 0, 0, ""⟩ else
